@@ -23,6 +23,9 @@ void vf_join_all() noexcept;                 // blocks until all other engine th
 unsigned long vf_clock() noexcept;           // arbitrary non-decreasing clock
 void vf_thread_body(int k) noexcept;         // run the body of the k-th std::thread created so far on this engine thread
 void vf_wait_until_eq(const int* p, int v) noexcept;  // block until *p == v
+void vf_wait_until_ne(const int* p, int v) noexcept;  // block until *p != v
+unsigned long vf_clock_peek() noexcept;       // current ghost time without advancing it
+void vf_clock_at_least(unsigned long t) noexcept;   // time passes until at least t (used by kernel-timer stubs)
 void vf_stop_here() noexcept;                // the calling engine thread finishes here (used to leave a run-loop)
 }
 #define VF_ASSERT(c, msg) __CPROVER_assert(static_cast<bool>(c), msg)
